@@ -281,6 +281,8 @@ def explain(g, ev, trace, model, den, timeout_ms, expr=None):
     chk = check_output(g, ev, expr, model, den, timeout_ms)
     if chk["violation"] is None and not chk["unknown"]:
         return flags
+    if chk["violation"] is None and chk["unknown"]:
+        return ["attribution-undecided"]  # the solver timed out on the corrected re-run: neither excused nor reported
     return []
 
 
@@ -390,6 +392,12 @@ def run() -> int:
             what = f"id_star returned {short(r['est'], 120)} for {key}: " + (
                 f"value {v['est']} != P(event) = {v['truth']} at {v['env']}" if v["kind"] == "wrong" else v["why"]
             )
+            if r.get("explained") == ["attribution-undecided"]:
+                # a wrong output at a call site of a known finding, and the solver timed out when asked whether the
+                # harness-side correction makes it right: inconclusive (listed), neither a known finding nor a violation
+                rep.inconclusive += 1
+                rep.inconclusive_samples.append(key + " (attribution to a known finding undecided: solver timeout on the corrected re-run)")
+                continue
             rep.add_violation(Violation(PROP, [key] + list(r.get("explained") or []), what, p))
     from .. import history_runs
 
